@@ -4,6 +4,7 @@ import (
 	"bytes"
 	"fmt"
 	"math/rand"
+	"sort"
 	"strings"
 
 	"filippo.io/age/zverif/mon"
@@ -372,4 +373,130 @@ func runTexts(r *mon.Run, c *checker, cases []textCase, table string) {
 	})
 	r.Count(table+"_texts", int64(len(cases)))
 	r.Count(table+"_executions", int64(len(cases)*nDelivery))
+}
+
+// skippedCharCases: multi-byte insertions of the characters encoding/base64
+// itself skips (CR, and LF which also ends a line) INSIDE body lines, such that
+// the line keeps a legal width: 4k CRs spliced into a last line of L columns
+// (L+4k <= 64, in particular exactly 64), at the start, the end, the middle,
+// around the padding, scattered or at seeded random places; lines made of CRs
+// only; 4j base64 characters of a full line replaced by CRs; for LF and CRLF
+// files with 0..2 full lines before. All are outside the grammar. wide reports
+// whether some line of the text is exactly 64 columns with a skipped character
+// in it (the ones also sent through every kind of source reader).
+func skippedCharCases(r *mon.Run, emit func(tc textCase, wide bool)) {
+	rng := r.RNG("c08-skipped-chars")
+	build := func(eol string, lines []string) []byte {
+		var t []byte
+		t = append(t, beginLine+eol...)
+		for _, l := range lines {
+			t = append(t, l...)
+			t = append(t, eol...)
+		}
+		return append(t, endLine+eol...)
+	}
+	// splice puts the bytes of ins into line at the given sorted positions
+	// (positions in the original line, one byte of ins per position).
+	splice := func(line string, pos []int, c byte) string {
+		var out []byte
+		j := 0
+		for i := 0; i <= len(line); i++ {
+			for j < len(pos) && pos[j] == i {
+				out = append(out, c)
+				j++
+			}
+			if i < len(line) {
+				out = append(out, line[i])
+			}
+		}
+		return string(out)
+	}
+	rep := func(p, n int) []int {
+		out := make([]int, n)
+		for i := range out {
+			out[i] = p
+		}
+		return out
+	}
+	for _, eol := range []string{"\n", "\r\n"} {
+		for nFull := 0; nFull <= 2; nFull++ {
+			var fulls []string
+			for i := 0; i < nFull; i++ {
+				fulls = append(fulls, b64of(fmt.Sprintf("c08-skip-full-%d-%d", r.Seed, i), 48))
+			}
+			name := fmt.Sprintf("armor(%d full lines, eol %q)", nFull, eol)
+			for L := 4; L <= 64; L += 4 {
+				for pad := 0; pad <= 2; pad++ {
+					nb := L/4*3 - pad
+					last := b64of(fmt.Sprintf("c08-skip-last-%d-%d", r.Seed, nb), nb)
+					for _, c := range []byte{'\r', '\n'} {
+						// 4k characters so that the width stays a multiple of 4, and a few odd counts
+						for _, cnt := range []int{1, 2, 3, 4, 5, 8, 12, 16, 32, 64 - L, 60 - L, 68 - L} {
+							if cnt <= 0 || L+cnt > 72 {
+								continue
+							}
+							body := len(strings.TrimRight(last, "="))
+							places := map[string][]int{
+								"at the start":       rep(0, cnt),
+								"at the end":         rep(L, cnt),
+								"in the middle":      rep(L/2/4*4, cnt),
+								"inside a quantum":   rep(L/2/4*4+1, cnt),
+								"before the padding": rep(body, cnt),
+							}
+							if pad == 2 {
+								places["between the padding characters"] = rep(L-1, cnt)
+							}
+							sc := make([]int, cnt)
+							for i := range sc {
+								sc[i] = (i * (L + 1)) / cnt
+							}
+							places["scattered"] = sc
+							rp := make([]int, cnt)
+							for i := range rp {
+								rp[i] = rng.Intn(L + 1)
+							}
+							sort.Ints(rp)
+							places["at seeded random places"] = rp
+							for pn, pos := range places {
+								line := splice(last, pos, c)
+								wide := c == '\r' && len(line) == 64
+								emit(textCase{build(eol, append(append([]string{}, fulls...), line)),
+									fmt.Sprintf("%s with %d x %q %s of its %d-column last line (%d bytes)", name, cnt, c, pn, L, nb)}, wide)
+							}
+						}
+					}
+				}
+				// a line of skipped characters only, as the last line, after a short line, before a short line
+				for _, c := range []byte{'\r', '\n'} {
+					only := strings.Repeat(string(c), L)
+					short := b64of(fmt.Sprintf("c08-skip-short-%d", r.Seed), 5)
+					wide := c == '\r' && L == 64
+					emit(textCase{build(eol, append(append([]string{}, fulls...), only)), fmt.Sprintf("%s followed by a body line of %d x %q", name, L, c)}, wide)
+					emit(textCase{build(eol, append(append([]string{}, fulls...), short, only)), fmt.Sprintf("%s, a short line and a body line of %d x %q", name, L, c)}, wide)
+					emit(textCase{build(eol, append(append([]string{}, fulls...), only, short)), fmt.Sprintf("%s, a body line of %d x %q and a short line", name, L, c)}, wide)
+					emit(textCase{build(eol, append([]string{only}, fulls...)), fmt.Sprintf("%s preceded by a body line of %d x %q", name, L, c)}, wide)
+				}
+			}
+			// 4j base64 characters of a full line replaced by CRs (the line stays 64 columns)
+			if nFull > 0 {
+				for li := 0; li < nFull; li++ {
+					for _, j := range []int{1, 2, 4, 8, 15, 16} {
+						for _, at := range []int{0, 4, 28, 30, 64 - 4*j} {
+							if at+4*j > 64 {
+								continue
+							}
+							fl := fulls[li]
+							mod := fl[:at] + strings.Repeat("\r", 4*j) + fl[at+4*j:]
+							lines := append([]string{}, fulls...)
+							lines[li] = mod
+							for _, tail := range [][]string{nil, {b64of("c08-skip-tail", 7)}} {
+								emit(textCase{build(eol, append(lines, tail...)),
+									fmt.Sprintf("%s with columns %d..%d of full line %d replaced by CRs, %d more lines", name, at, at+4*j-1, li, len(tail))}, true)
+							}
+						}
+					}
+				}
+			}
+		}
+	}
 }
